@@ -304,6 +304,38 @@ def shared_family():
                 lambda b: mk_shared_items(b, False)))
     fam.append(('shared-item-index-sweeten', {'classes': BASE + [item, shop_d, holder], 'root': ('cls', 'Holder')},
                 lambda b: mk_shared_items(b, True)))
+    # the COLLECTION is also the value of an attribute that is not sweetened (one dict / list object, two attributes)
+    for as_dict in (False, True):
+        t = ('dict', 'str', ('cls', 'It')) if as_dict else ('list', ('cls', 'It'))
+        ops = ('index_to_map', 'map_to_index') if as_dict else ('seq_to_map', 'map_to_seq')
+        co = {'name': 'Co', 'params': [('items', t), ('staff', ('opt', t), None)],
+              'hooks': {'sweeten': [(ops[0], 'items', 'id', 'v')], 'savorize': [(ops[1], 'items', 'id', 'v')],
+                        'recognize': [('require_attr', 'items')]}}
+
+        def mk_shared_coll(b, as_dict=as_dict):
+            It, Co = b.classes['It'], b.classes['Co']
+            i1, i2 = It('i1', 1), It('i2', 2, 'x')
+            coll = (lambda its: collections.OrderedDict((i.id, i) for i in its)) if as_dict else list
+            d1, d2 = coll([i1]), coll([i1, i2])
+            return [Co(d1, d1), Co(d2, d2), Co(d2, coll([i1, i2]))]
+        fam.append(('shared-collection-%s-sweeten' % ('index' if as_dict else 'seq'),
+                    {'classes': BASE + [item, co], 'root': ('cls', 'Co')}, mk_shared_coll))
+    # the savorize-direction helpers used as sweeteners (Python keeps a dict, the YAML items carry their key inside),
+    # with one item object under two keys and also referenced from outside the collection
+    itn = {'name': 'Itn', 'params': [('v', 'int'), ('w', 'str', 'dw')]}
+    for opn, inv in (('map_to_seq', 'seq_to_map'), ('map_to_index', 'index_to_map')):
+        shop_r = {'name': 'ShopR', 'params': [('items', ('dict', 'str', ('cls', 'Itn')))],
+                  'hooks': {'sweeten': [(opn, 'items', 'id', None)], 'savorize': [(inv, 'items', 'id', None)],
+                            'recognize': [('require_attr', 'items')]}}
+        holder_r = {'name': 'HolderR', 'params': [('first', ('cls', 'Itn')), ('shop', ('cls', 'ShopR')), ('last', ('opt', ('cls', 'Itn')), None)]}
+
+        def mk_rev(b):
+            Itn, ShopR, H = b.classes['Itn'], b.classes['ShopR'], b.classes['HolderR']
+            i1, i2 = Itn(1), Itn(2, 'x')
+            od = collections.OrderedDict
+            return [H(Itn(3), ShopR(od([('a', i1), ('b', i2)]))), H(i1, ShopR(od([('a', i1), ('b', i2)]))),
+                    H(Itn(3), ShopR(od([('a', i1), ('b', i1)]))), H(i2, ShopR(od([('a', i1), ('b', i1)])), i1)]
+        fam.append(('shared-item-%s-sweeten' % opn.replace('_', '-'), {'classes': BASE + [itn, shop_r, holder_r], 'root': ('cls', 'HolderR')}, mk_rev))
     # one object of a class whose sweeten REPLACES the node (short form), referenced twice
     kshort = _K([('v', 'int')], hooks={'sweeten': [('attr_to_scalar', 'v')], 'savorize': [('scalar_to_attr', 'v')],
                                        'recognize': [('permissive',)]})
